@@ -24,13 +24,14 @@ theorem hash_inputs_are_spec :
 /-! ### The answer is the specification's -/
 
 /-- **`SRP.Hash` = the SRP specification.**  For any password, salts, client secret `random`, server
-value `B` (at most 256 bytes: padded or minimal big-endian form) and any group accepted by `CheckDH` (modulus given as its 256 bytes), the
+value `B` in any byte form whose value fits 2048 bits (minimal, padded to 256 bytes, or longer with
+leading zero bytes) and any group accepted by `CheckDH` (modulus given as its 256 bytes), the
 implementation returns exactly `(A, M1)` as defined by core.telegram.org/api/srp
 (`Spec.answer`: `A = pad(g^a mod p)`, `M1 = H(H(p) xor H(g) | H(salt1) | H(salt2) | g_a | g_b | H(s_a))`,
 `s_a = ((g_b − k·v) mod p)^(a + u·x) mod p`, `x = PH2(password, salt1, salt2)` with PBKDF2-HMAC-SHA512,
 100000 iterations). -/
 theorem srp_impl_eq_spec (S : SrpPrims) (hS : LawfulSrp S) (isPrime : Int → Bool)
-    (password srpB random : Bytes) (i : Input) (hp : i.p.length = 256) (hb : srpB.length ≤ 256)
+    (password srpB random : Bytes) (i : Input) (hp : i.p.length = 256) (hb : beNat srpB < 256 ^ 256)
     (hgrp : C13.checkDH isPrime i.g ((beNat i.p : Nat) : Int) = .ok) :
     Impl.srpHash S isPrime password srpB random i =
       .ok (Spec.answer S (beNat i.p) i.g.toNat (beNat random) (beNat srpB) password i.salt1 i.salt2) :=
@@ -105,7 +106,7 @@ theorem srp_hash_accepted_by_verifier (S : SrpPrims) (hS : LawfulSrp S) (isPrime
   have hpos : 0 < p := Nat.lt_of_lt_of_le (Nat.two_pow_pos 2047) hlo
   have hBlt : Spec.serverB S p g vv b < 256 ^ 256 := Nat.lt_trans (Nat.mod_lt _ hpos) hhi
   have hB : beNat srpB = Spec.serverB S p g vv b := beNat_beBytes 256 _ hBlt
-  have hlen : srpB.length ≤ 256 := Nat.le_of_eq (beBytes_length 256 _)
+  have hlen : beNat srpB < 256 ^ 256 := hB ▸ hBlt
   refine ⟨_, _, srp_impl_eq_spec S hS isPrime password srpB random i hp hlen hgrp, ?_⟩
   have hA : beNat (Spec.pad (Spec.gA p g (beNat random))) = Spec.gA p g (beNat random) :=
     beNat_beBytes 256 _ (Nat.lt_trans (Nat.mod_lt _ hpos) hhi)
